@@ -143,6 +143,7 @@ class Interp:
         self.recurrences = []
         self.assumed = []
         self.scatter = None
+        self.max_facts = []
         self.all_subst = {}
         self.loop_log = []
 
@@ -352,7 +353,7 @@ class Interp:
         if not (isinstance(b, Vec) and isinstance(idx, IntV)):
             raise Unanalysable(f"indexed write {idx!r} into {b!r}")
         if self.scatter is not None:
-            self.scatter.append({"target": base_ref.desc, "root": base_ref.root_id, "idx": idx.e, "value": v, "old": ssym("OLD:" + base_ref.desc), "where": FX.short((e or {}).get("sp"))})
+            self.scatter.append({"target": base_ref.desc, "root": base_ref.root_id, "idx": idx.e, "value": v, "old": ssym("OLD:" + base_ref.desc), "where": FX.short((e or {}).get("sp")), "loops": [(lc["isym"], lc["n"]) for lc in self.loop_ctx if lc.get("isym") is not None]})
             return
         # inside a loop over the index symbol: element-wise write schema
         for lc in reversed(self.loop_ctx):
@@ -1162,6 +1163,23 @@ class Interp:
                     continue
                 raise Unanalysable(f"loop-carried scalar update {carried[lid]} := {ne} matches no schema", where)
             else:
+                if isinstance(new, Ite) and isinstance(new.cond, Cond) and new.cond.op == "lt":
+                    # running maximum:  if x > acc { acc = x }
+                    c_ = new.cond
+                    hi, lo_ = (new.a, new.b) if not c_.neg else (new.b, new.a)
+                    if isinstance(hi, IntV) and isinstance(lo_, IntV) and eq(c_.a, ph) and eq(lo_.e, ph) and eq(hi.e, c_.b) and not sp.sympify(c_.b).has(ph):
+                        mx = sfun("MAX")(seg.n, sp.sympify(c_.b).xreplace({j: isym("_k")}))
+                        self.max_facts.append({"template": sp.sympify(c_.b), "isym": j, "n": seg.n, "max": mx, "init": init.e, "where": where})
+                        # an upper bound that holds for the generic element holds for the maximum
+                        for fa, fb in list(self.bounds.facts):
+                            if eq(fa, c_.b) and not sp.sympify(fb).has(j) and eq(init.e, 0):
+                                self.bounds.add_le(mx, fb)
+                        subst[ph] = sfun("MAXTO")(j, sp.sympify(c_.b).xreplace({j: isym("_k")}))
+                        finals[lid] = IntV(mx) if eq(init.e, 0) else IntV(sfun("MAX2")(init.e, mx))
+                        continue
+                    raise Unanalysable(f"loop-carried integer update {carried[lid]} := {new!r} matches no schema", where)
+                if not isinstance(new, IntV):
+                    raise Unanalysable(f"loop-carried integer update {carried[lid]} := {new!r} matches no schema", where)
                 ne = sp.expand(new.e)
                 if eq(ne, ph):
                     subst[ph] = init.e
